@@ -43,7 +43,7 @@ def scripts(tier, seed, xsd=False):
                 continue
             for j in range(5 if tier == 'quick' else 20):
                 items.append({'d': d, 'stmts': stmts, 'root': root, 'derived': bool(j % 2) or xsd, 'route': ROUTES[k % len(ROUTES)],
-                              'shuffle': bool(j), 'seed': rnd.randint(0, 10 ** 6), 'via': ['loader', 'mk', 'loader', 'mk', 'load_component'][k % 5],
+                              'shuffle': bool(j), 'seed': rnd.randint(0, 10 ** 6), 'via': ['loader', 'mk', 'sql_main', 'mk', 'load_component', 'loader'][k % 6],
                               'xsd': (['tree', 'main'][k % 3 == 0] if xsd else ''), 'trail': ['real']})
                 k += 1
     nscripts = 12 if tier == 'quick' else 150
@@ -58,7 +58,7 @@ def scripts(tier, seed, xsd=False):
                 # (C20: referred key attributes may be derived there, so the component part asks for derived attributes)
                 for derived in ([False, True] if (k % 3 == 0 and not xsd) else [bool(k % 2) or xsd]):
                     items.append({'d': d, 'root': root, 'derived': derived, 'route': ROUTES[k % len(ROUTES)],
-                                  'shuffle': bool(k % 2), 'seed': rnd.randint(0, 10 ** 6), 'via': ['loader', 'mk', 'loader', 'mk', 'load_component'][k % 5],
+                                  'shuffle': bool(k % 2), 'seed': rnd.randint(0, 10 ** 6), 'via': ['loader', 'mk', 'sql_main', 'mk', 'load_component', 'loader'][k % 6],
                                   'xsd': (['tree', 'main'][k % 5 == 0] if xsd else ''), 'trail': list(trail)})
                     k += 1
             nd, kind = bpgen.edit(d, rnd, derived_keys=xsd)
